@@ -102,11 +102,11 @@ var c28symsAll = []c28sym{
 	{"G", false, c28fOK}, {"H", false, c28fOK}, {"PC", true, c28fOK}, {"PK", true, c28fOK}, {"EC", true, c28fOK},
 	{"PXhex", true, c28fBroken}, {"MF", false, c28fBroken}, {"OV", false, c28fBroken},
 	{"EK", true, c28fOK}, {"PKT", true, c28fOK}, {"HB", true, c28fOK}, {"G10K", false, c28fOK}, {"P10K", true, c28fOK},
-	{"GC", false, c28fOK}, {"BIGm1", true, c28fOK}, {"BIGp1", true, c28fOK},
+	{"GC", false, c28fOK}, {"BIGm1", true, c28fOK}, {"BIGpS", true, c28fOK}, {"EXhex", true, c28fBroken},
 	{"E0", false, c28fReject}, {"XP", false, c28fReject},
 	{"PXext", true, c28fOK}, {"PXcrlf", true, c28fBroken}, {"PXtr", true, c28fBroken},
 	{"MH", false, c28fBroken}, {"LU", false, c28fBroken}, {"CLbad", false, c28fBroken},
-	{"BIG0", true, c28fOK}, {"BIGp5", true, c28fOK}, {"BIGK", true, c28fOK}, {"E10", true, c28fOK},
+	{"BIG0", true, c28fOK}, {"BIGp1", true, c28fOK}, {"BIGK", true, c28fOK}, {"E10", true, c28fOK},
 }
 
 func c28symIdx(name string) int {
@@ -182,8 +182,10 @@ func c28build(s c28sym, i int, b c28beh) *c28req {
 		q.body = big(c28drain)
 	case "BIGp1":
 		q.body = big(c28drain + 1)
-	case "BIGp5":
-		q.body = big(c28drain + 5)
+	case "BIGpS":
+		// what is left after bfe's bounded drain (maxPostHandlerReadBytes+1) is exactly one fake request
+		raw := big(c28drain + 1 + len(sent))
+		q.body = raw[:len(raw)-len(sent)] + sent
 	case "BIGK":
 		raw := big(c28drain + 1)
 		third := len(raw) / 3
@@ -192,6 +194,9 @@ func c28build(s c28sym, i int, b c28beh) *c28req {
 	case "PXhex":
 		q.body = c28chunk("abcd") + "zz\r\n" + sent + "0\r\n\r\n"
 		q.head = line("POST", "HTTP/1.1") + host + "Transfer-Encoding: chunked\r\n\r\n"
+	case "EXhex":
+		q.body = c28chunk("abcd") + "zz\r\n" + sent + "0\r\n\r\n"
+		q.head = line("POST", "HTTP/1.1") + host + "Expect: 100-continue\r\nTransfer-Encoding: chunked\r\n\r\n"
 	case "PXext":
 		// RFC 7230 4.1.1 chunk extension: valid framing
 		q.body = c28chunk("abcd") + fmt.Sprintf("%x;ext=1\r\n%s\r\n", len(sent), sent) + "0\r\n\r\n"
@@ -420,14 +425,7 @@ type c28plan struct {
 }
 
 // c28mkplan cuts the stream at the given absolute offsets (sorted, unique).
-func c28mkplan(name string, reqs []*c28req, offs []int) c28plan {
-	var stream strings.Builder
-	var starts []int
-	for _, q := range reqs {
-		starts = append(starts, stream.Len())
-		stream.WriteString(q.wire())
-	}
-	s := stream.String()
+func c28mkplan(name string, s string, starts []int, offs []int) c28plan {
 	p := c28plan{name: name}
 	prev := 0
 	offs = append(append([]int(nil), offs...), len(s))
@@ -464,7 +462,21 @@ type c28ctx struct {
 	syms []c28sym // alphabet of this family
 	maxN int
 	cutMode int // 0: P, SW; 1: + single cuts; 2: + pairs of cuts
-	behLimit int // number of behaviours per class to use (0 = all)
+	behLimit []int // per position: number of behaviours per class to use (0 = all)
+	samples  int
+	cache    map[string]*c28req
+	lastKey, lastStream string
+}
+
+// build returns the (immutable, cached) rendering of a request.
+func (c *c28ctx) build(s c28sym, i int, b c28beh) *c28req {
+	k := s.name + "|" + strconv.Itoa(i) + "|" + b.name
+	if q, ok := c.cache[k]; ok {
+		return q
+	}
+	q := c28build(s, i, b)
+	c.cache[k] = q
+	return q
 }
 
 func c28behaviours(s c28sym, limit int) []c28beh {
@@ -519,7 +531,7 @@ func c28exec(c *c28ctx, fam string, ch *vk.Chooser) {
 			}
 			s = c.syms[k]
 		}
-		bl := c28behaviours(s, c.behLimit)
+		bl := c28behaviours(s, c.behLimit[i-1])
 		if prevClosing {
 			bl = bl[:1]
 		}
@@ -527,7 +539,7 @@ func c28exec(c *c28ctx, fam string, ch *vk.Chooser) {
 		if ch.Skipped {
 			return
 		}
-		reqs = append(reqs, c28build(s, i, b))
+		reqs = append(reqs, c.build(s, i, b))
 	}
 	if len(reqs) == 0 {
 		return
@@ -539,7 +551,7 @@ func c28exec(c *c28ctx, fam string, ch *vk.Chooser) {
 		for _, x := range q.cuts() {
 			cuts = append(cuts, off+x)
 		}
-		off += len(q.wire())
+		off += len(q.head) + len(q.body)
 		bounds = append(bounds, off)
 	}
 	bounds = bounds[:len(bounds)-1]
@@ -570,7 +582,23 @@ func c28exec(c *c28ctx, fam string, ch *vk.Chooser) {
 	if ch.Skipped {
 		return
 	}
-	plan := c28mkplan(pk.name, reqs, pk.offs)
+	var key strings.Builder
+	var starts []int
+	o := 0
+	for _, q := range reqs {
+		key.WriteString(q.path + "/" + q.beh.name + " ")
+		starts = append(starts, o)
+		o += len(q.head) + len(q.body)
+	}
+	if c.lastKey != key.String() {
+		var sb strings.Builder
+		for _, q := range reqs {
+			sb.WriteString(q.head)
+			sb.WriteString(q.body)
+		}
+		c.lastKey, c.lastStream = key.String(), sb.String()
+	}
+	plan := c28mkplan(pk.name, c.lastStream, starts, pk.offs)
 	id := ch.CaseID(fam)
 	if !r.Case(id) {
 		return
@@ -583,6 +611,54 @@ func c28exec(c *c28ctx, fam string, ch *vk.Chooser) {
 	c28run(c, id, scen, reqs, plan)
 }
 
+// c28class names the input class for violation signatures: the first request of the sequence
+// that is not a plain well-formed one decides (one root cause => one class).
+func c28class(reqs []*c28req) string {
+	cls := "plain"
+	for _, q := range reqs {
+		switch q.sym {
+		case "PXhex", "PXcrlf", "EXhex":
+			return "chunked-body-error"
+		case "PXtr":
+			return "chunked-trailer-error"
+		case "PXext":
+			return "chunk-extension"
+		case "MF", "MH", "CLbad":
+			return "malformed-header"
+		case "OV":
+			return "oversized-header"
+		case "LU":
+			return "long-uri"
+		case "E0", "XP":
+			return "expect-rejected"
+		}
+		if q.hasBody && cls == "plain" {
+			switch {
+			case strings.HasPrefix(q.sym, "BIG"):
+				cls = "big-body/" + q.beh.name
+			case q.sym == "EC" || q.sym == "EK" || q.sym == "E10":
+				cls = "expect-continue/" + q.beh.name
+			default:
+				cls = q.sym + "/" + q.beh.name
+			}
+		}
+	}
+	return cls
+}
+
+// rule priorities: at most one violation is reported per execution, the most specific one
+var c28rules = []string{
+	"no-parse:%s:body-bytes-served-as-request",
+	"no-parse:%s:unknown-request-reached-backend",
+	"close:%s:answered-beyond-undelimited-request",
+	"close:%s:connection-left-open",
+	"order:%s:response-of-other-request",
+	"order:%s:well-formed-request-answered-with-parse-error",
+	"count:%s:more-final-responses-than-requests",
+	"count:%s:response-after-close-delimited-response",
+	"order:%s:response-stream-unparseable",
+}
+
 // c28run executes one scenario on a fresh connection and evaluates the oracle.
 func c28run(c *c28ctx, id, scen string, reqs []*c28req, plan c28plan) {
 	r := c.r
@@ -593,101 +669,86 @@ func c28run(c *c28ctx, id, scen string, reqs []*c28req, plan c28plan) {
 		methods = append(methods, q.method)
 	}
 	panics0 := c.srv.serverStatus.ProxyState.PanicClientConnServe.Get()
-	viol := func(sig, detail string) {
-		r.Violation(sig, id, scen+": "+detail)
-	}
-	// signature class: the first body-carrying or non-plain request decides (one root cause, one sig)
-	sigcls := "plain"
-	for _, q := range reqs {
-		if q.framing != c28fOK || strings.HasPrefix(q.sym, "PX") {
-			sigcls = q.sym
-			break
-		}
-		if q.hasBody && sigcls == "plain" {
-			sigcls = q.sym + "/" + q.beh.name
-		}
+	// executions are independent: forget the failures earlier executions charged to the backend
+	// (otherwise it is marked down after FailNum errors and a health-check goroutine starts)
+	for _, b := range c.srv.balTable.VerifBackends() {
+		b.ResetFailNum()
+		b.ResetSuccNum()
+		b.SetAvail(true)
 	}
 	var finals []c28resp
 	var seen []string
 	closed := false
 	events := 0
-	flagged := map[string]bool{}
-	once := func(sig, detail string) {
-		if !flagged[sig] {
-			flagged[sig] = true
-			viol(sig, detail)
+	found := make([]string, len(c28rules)) // first detail per rule
+	flag := func(rule int, detail string) {
+		if found[rule] == "" {
+			found[rule] = detail
 		}
 	}
 	check := func(step int, e *h1env) {
 		out := e.out()
 		var garbage string
-		var interim int
-		finals, interim, garbage = c28parse(out, methods)
-		_ = interim
+		finals, _, garbage = c28parse(out, methods)
 		seen = tr.Seen()
 		started := plan.started[step]
 		if garbage != "" {
-			once("order:"+sigcls+":response-stream-unparseable", fmt.Sprintf("after send %d client cannot parse %q", step, garbage))
+			flag(8, fmt.Sprintf("after send %d the client cannot parse %q", step, garbage))
 		}
 		nf := len(finals)
-		if nf > 0 && !finals[nf-1].complete && finals[nf-1].status == 0 {
+		if nf > 0 && finals[nf-1].status == 0 {
 			nf-- // header not complete yet
 		}
 		if nf > started {
-			once("count:"+sigcls+":more-final-responses-than-requests", fmt.Sprintf("after send %d: %d final responses for %d requests started; out=%q", step, nf, started, c28tail(out)))
+			flag(6, fmt.Sprintf("after send %d: %d final responses for %d requests started; out=%q", step, nf, started, c28tail(out)))
 		}
 		for k := range finals {
 			if finals[k].extra > 0 {
-				once("count:"+sigcls+":response-after-close-delimited-response", fmt.Sprintf("response %d (status %d) has no framing and is followed by another response; out=%q", k+1, finals[k].status, c28tail(out)))
+				flag(7, fmt.Sprintf("response %d (status %d) has no framing and is followed by another response; out=%q", k+1, finals[k].status, c28tail(out)))
 			}
 		}
-		// (no-parse) backend view is an in-order sub-sequence of the requests really sent
+		// (no-parse) the backend view is an in-order sub-sequence of the requests really sent
 		j := 0
 		for _, s := range seen {
-			found := false
+			ok := false
 			for j < len(reqs) {
 				q := reqs[j]
 				j++
-				if q.method+" "+q.path == s && q.framing == c28fOK {
-					found = true
+				if q.method+" "+q.path == s {
+					ok = true
 					break
 				}
 			}
-			if !found {
-				kind := "unknown-request"
+			if !ok {
+				rule := 1
 				if strings.Contains(s, "/smuggled") {
-					kind = "body-bytes-served-as-request"
+					rule = 0
 				}
-				once("no-parse:"+sigcls+":"+kind, fmt.Sprintf("backend saw %q which the client never sent as a request (backend view %q)", s, seen))
+				flag(rule, fmt.Sprintf("backend saw %q which the client never sent as a request (backend view %q)", s, seen))
 				break
 			}
 		}
-		// (order) k-th final response belongs to k-th request
+		// (order) the k-th final response belongs to the k-th request
 		for k, f := range finals {
 			if f.status == 0 || k >= len(reqs) {
 				continue
 			}
 			q := reqs[k]
 			if f.xpath != "" && f.xpath != q.path {
-				once("order:"+sigcls+":response-of-other-request", fmt.Sprintf("final response %d carries X-Path %q, request %d is %s %q", k+1, f.xpath, k+1, q.method, c28short(q.path)))
+				flag(4, fmt.Sprintf("final response %d carries X-Path %q, request %d is %s %q", k+1, f.xpath, k+1, q.method, c28short(q.path)))
 			}
-			if q.framing == c28fOK && f.xpath == "" && (f.status == 400 || f.status == 413 || f.status == 414 || f.status == 417) && !strings.HasPrefix(q.sym, "PX") {
-				once("order:"+sigcls+":well-formed-request-answered-"+strconv.Itoa(f.status), fmt.Sprintf("request %d (%s %s) answered %d: bfe parsed something else", k+1, q.method, c28short(q.path), f.status))
+			if q.framing == c28fOK && f.xpath == "" && (f.status == 400 || f.status == 413 || f.status == 414 || f.status == 417) && q.sym != "PXext" {
+				flag(5, fmt.Sprintf("request %d (%s %s) answered %d: bfe parsed something else", k+1, q.method, c28short(q.path), f.status))
 			}
 		}
 		// (close) nothing after a request whose end bfe cannot determine
 		for k, q := range reqs {
-			if q.framing == c28fBroken && len(finals) > k+1 {
-				once("close:"+q.sym+":answered-beyond-undelimited-request", fmt.Sprintf("request %d has no determinable end, yet %d final responses were sent; out=%q", k+1, len(finals), c28tail(out)))
+			if q.framing == c28fBroken && nf > k+1 {
+				flag(2, fmt.Sprintf("request %d (%s) has no determinable end, yet %d final responses were sent; out=%q", k+1, q.sym, nf, c28tail(out)))
 			}
 		}
 	}
-	// conn.serve does server.connWaitGroup.Add(1): a sync.WaitGroup stays associated with the first
-	// synctest bubble that used it, so every execution gets a shallow copy of the server struct
-	// (fresh WaitGroup address; every table, the ReverseProxy, callbacks, caches are shared pointers).
-	srvX := new(BfeServer)
-	*srvX = *c.srv
-	h1run(c.t, srvX, nil, func(e *h1env) {
+	h1run(c.t, c.srv, nil, func(e *h1env) {
 		c.srv.ReverseProxy.tsMu.Lock()
 		for name := range c.srv.ReverseProxy.transports {
 			c.srv.ReverseProxy.transports[name] = tr
@@ -702,11 +763,17 @@ func c28run(c *c28ctx, id, scen string, reqs []*c28req, plan c28plan) {
 		// (close) all bytes delivered: a connection with an undelimited request must be closed
 		for k, q := range reqs {
 			if q.framing == c28fBroken && !closed {
-				once("close:"+q.sym+":connection-left-open", fmt.Sprintf("request %d has no determinable end; all bytes delivered, %d responses, connection still open", k+1, len(finals)))
+				flag(3, fmt.Sprintf("request %d (%s) has no determinable end; all bytes delivered, %d responses, connection still open", k+1, q.sym, len(finals)))
 				break
 			}
 		}
 	})
+	for i, d := range found {
+		if d != "" {
+			r.Violation(fmt.Sprintf(c28rules[i], c28class(reqs)), id, scen+": "+d)
+			break
+		}
+	}
 	if p := c.srv.serverStatus.ProxyState.PanicClientConnServe.Get(); p != panics0 {
 		r.Outcome("serve-panic-recovered")
 		r.Sample(map[string]interface{}{"panic_in_serve": scen, "case": id})
@@ -721,11 +788,11 @@ func c28run(c *c28ctx, id, scen string, reqs []*c28req, plan c28plan) {
 		}
 	}
 	switch {
-	case closed && answered == len(reqs):
+	case closed && answered >= len(reqs):
 		r.Outcome("all-answered-then-closed")
 	case closed:
 		r.Outcome("closed-before-all-answered")
-	case answered == len(reqs):
+	case answered >= len(reqs):
 		r.Outcome("all-answered-kept-alive")
 	default:
 		r.Outcome("open-waiting")
@@ -738,7 +805,10 @@ func c28run(c *c28ctx, id, scen string, reqs []*c28req, plan c28plan) {
 	if len(reqs) >= 2 || reqs[0].hasBody {
 		r.NontrivialN(1)
 	}
-	r.Sample(map[string]interface{}{"scenario": scen, "case": id, "finals": c28statuses(finals), "backend_saw": seen, "closed": closed})
+	c.samples++
+	if c.samples%997 == 1 {
+		r.Sample(map[string]interface{}{"scenario": scen, "case": id, "finals": c28statuses(finals), "backend_saw": seen, "closed": closed})
+	}
 }
 
 func c28statuses(f []c28resp) []int {
@@ -788,25 +858,26 @@ func TestVerifC28(t *testing.T) {
 		syms     []c28sym
 		maxN     int
 		cutMode  int
-		behLimit int
+		behLimit []int
 	}
+	quickSyms := c28symsAll[:c28symIdx("BIG0")]
 	var fams []fam
 	if !r.Thorough() {
 		fams = []fam{
-			// every symbol, sequences <= 2, all behaviours, P / SW / every single cut
-			{"full2", c28symsAll[:c28symIdx("BIG0")], 2, 1, 0},
+			// every quick symbol, sequences <= 2, all behaviours of the first request, P / SW / every single cut
+			{"full2", quickSyms, 2, 1, []int{0, 2}},
 			// core symbols, sequences <= 3, pipelined and stop-and-wait
-			{"core3", c28pick("G", "H", "PC", "PK", "EC", "PXhex", "MF"), 3, 0, 3},
+			{"core3", c28pick("G", "H", "PC", "PK", "EC", "PXhex", "MF"), 3, 0, []int{3, 3, 3}},
 		}
 	} else {
 		fams = []fam{
-			{"full2", c28symsAll, 2, 2, 0},
-			{"full3", c28symsAll[:c28symIdx("BIG0")], 3, 0, 3},
-			{"core3", c28pick("G", "H", "PC", "PK", "EC", "EK", "PKT", "PXhex", "PXext", "MF", "E0"), 3, 1, 0},
+			{"full2", c28symsAll, 2, 2, []int{0, 0}},
+			{"full3", quickSyms, 3, 0, []int{3, 3, 3}},
+			{"core3", c28pick("G", "H", "PC", "PK", "EC", "EK", "PKT", "PXhex", "PXext", "MF", "E0"), 3, 1, []int{4, 4, 4}},
 		}
 	}
 	for _, f := range fams {
-		c := &c28ctx{t: t, r: r, srv: srv, syms: f.syms, maxN: f.maxN, cutMode: f.cutMode, behLimit: f.behLimit}
+		c := &c28ctx{t: t, r: r, srv: srv, syms: f.syms, maxN: f.maxN, cutMode: f.cutMode, behLimit: f.behLimit, cache: map[string]*c28req{}}
 		complete := true
 		n := vk.ExploreSharded(r, f.name, 2, -1, func(ch *vk.Chooser) {
 			c28exec(c, f.name, ch)
@@ -819,6 +890,6 @@ func TestVerifC28(t *testing.T) {
 		})
 		r.States(n)
 		r.Traces(n)
-		r.Set("family_"+f.name, fmt.Sprintf("symbols=%d maxlen=%d cutmode=%d behlimit=%d executions(this shard)=%d complete=%v", len(f.syms), f.maxN, f.cutMode, f.behLimit, n, complete))
+		r.Set("family_"+f.name, fmt.Sprintf("symbols=%d maxlen=%d cutmode=%d behlimit=%v executions(this shard)=%d complete=%v", len(f.syms), f.maxN, f.cutMode, f.behLimit, n, complete))
 	}
 }
